@@ -845,6 +845,75 @@ def fam_classcover(rng, opts=None):
     return b.program()
 
 
+def fam_steps(rng, opts=None):
+    """A boxed model chaining 2-4 primitive steps drawn from all eight (incl. Bregman and linear-optimisation steps)."""
+    b = Builder(rng)
+    b.meta["family"] = "steps"
+    f = b.func(b.pick(["SmoothStronglyConvexFunction", "SmoothConvexFunction", "ConvexFunction", "ConvexLipschitzFunction"]))
+    h = b.func("StronglyConvexFunction", params={"mu": 1.0})
+    ind = b.func("ConvexIndicatorFunction", params={"D": b.pick([1.0, "inf", 2.0])})
+    F = f
+    if rng.random() < 0.3:
+        F = b.nm("F")
+        b.emit({"op": "fcomb", "out": F, "terms": [[1.0, f], [1.0, ind]]})
+        b.funcs.append((F, "composite", "function", {}))
+        b.feat("composite")
+    x = b.init()
+    nsteps = rng.randint(2, 4)
+    for _ in range(nsteps):
+        kind = b.pick(list(STEP_SIGS))
+        gamma = b.pick([1.0, 0.5, 0.2, 2.0])
+        if kind == "proximal":
+            outs = b.step(kind, {"x0": x, "f": b.pick([F, ind, f]), "gamma": gamma})
+            b.points.extend(outs[:2]); b.values.append(outs[2]); b.exprs.append(outs[2]); x = outs[0]
+        elif kind == "inexact_gradient":
+            outs = b.step(kind, {"x0": x, "f": f, "gamma": gamma, "epsilon": b.pick([0.0, 0.1, 0.5]), "notion": b.pick(["absolute", "relative"])})
+            b.points.extend(outs[:2]); b.values.append(outs[2]); b.exprs.append(outs[2]); x = outs[0]
+        elif kind == "exact_linesearch":
+            g = b.grad(f, x)
+            outs = b.step(kind, {"x0": x, "f": f, "directions": [g] if rng.random() < 0.7 else [g, x]})
+            b.points.extend(outs[:2]); b.values.append(outs[2]); b.exprs.append(outs[2]); x = outs[0]
+        elif kind == "inexact_proximal":
+            outs = b.step(kind, {"x0": x, "f": f, "gamma": gamma, "opt": b.pick(["PD_gapI", "PD_gapII", "PD_gapIII"])})
+            xn, gx, fx, w, v, fw, epsv = outs
+            b.points.extend([xn, gx]); b.values.append(fx); b.exprs.extend([fx, epsv])
+            b.cons(epsv, "<=", b.pick([0.1, 0.0, 1.0]), owner=b.pick(["pep", f]))
+            x = xn
+        elif kind == "bregman_gradient":
+            g = b.grad(f, x)
+            sx = b.grad(h, x)
+            outs = b.step(kind, {"gx0": g, "sx0": sx, "mirror_map": h, "gamma": gamma})
+            b.points.extend(outs[:2]); b.values.append(outs[2]); b.exprs.append(outs[2]); x = outs[0]
+        elif kind == "bregman_proximal":
+            sx = b.grad(h, x)
+            outs = b.step(kind, {"sx0": sx, "mirror_map": h, "min_function": f, "gamma": gamma})
+            b.points.extend([outs[0], outs[1], outs[3]]); b.values.extend([outs[2], outs[4]]); b.exprs.extend([outs[2], outs[4]]); x = outs[0]
+        elif kind == "linear_optimization":
+            g = b.grad(f, x)
+            outs = b.step(kind, {"dir": g, "ind": ind})
+            b.points.extend(outs[:2]); b.values.append(outs[2]); b.exprs.append(outs[2])
+            lam = b.pick([0.5, 0.3, 1.0])
+            x = b.pcomb([[1 - lam, x], [lam, outs[0]]])
+        else:
+            outs = b.step(kind, {"x0": x, "f": f, "gamma": gamma})
+            xn, g0, f0, eps = outs
+            b.points.extend([xn, g0]); b.values.append(f0); b.exprs.extend([f0, eps])
+            b.cons(eps, "<=", b.pick([0.1, 0.0, 0.5]))
+            x = xn
+    if rng.random() < 0.6:
+        b.stat(F)
+    _box(b, b.pick([2.0, 4.0]))
+    # leaf expressions that are not function values (eps variables) are bounded too
+    for e in list(b.exprs):
+        if e not in b.values and e.startswith("s"):
+            b.cons(e, "<=", 5.0)
+            b.cons(e, ">=", -5.0)
+    nm = b.pick([1, 1, 2])
+    for _ in range(nm):
+        b.metric(b.expr(_rand_expr_terms(b, nterms=3, allow_const=False)))
+    return b.program()
+
+
 def fam_big(rng, opts=None):
     """More than 127 scalar constraints (row indices beyond one byte)."""
     opts = opts or {}
@@ -865,11 +934,11 @@ def fam_big(rng, opts=None):
     return b.program()
 
 
-FAMILIES = {"big": fam_big, "classcover": fam_classcover, "method": fam_method, "operator": fam_operator, "linear": fam_linear, "soup": fam_soup}
+FAMILIES = {"big": fam_big, "classcover": fam_classcover, "steps": fam_steps, "method": fam_method, "operator": fam_operator, "linear": fam_linear, "soup": fam_soup}
 
 
 def gen_program(rng, family=None, opts=None):
-    family = family or rng.choice(["method", "method", "operator", "soup", "soup", "linear"])
+    family = family or rng.choice(["method", "method", "operator", "soup", "soup", "linear", "steps"])
     prog = FAMILIES[family](rng, opts)
     return prog
 
